@@ -1,9 +1,11 @@
+//@file src/half_connection/packet_receiver/assembly_window/mod.rs
+//@props C03 C06
 // T9 cover for the trusted contract of AssemblyWindow::new (contracts/assembly_window.vspec).
 // Append this module to src/half_connection/packet_receiver/assembly_window/mod.rs of a scratch copy and run
 //   cargo test --offline --lib t9_assembly_window_new
 // (tested, not proved: the constructor uses `(0..n).map(|_| ..).collect()`, which Verus rejects.)
 #[cfg(test)]
-mod t9_assembly_window_new {
+mod verif_t9_assembly_window_new {
     use super::*;
 
     fn check(limit: usize) {
@@ -19,7 +21,7 @@ mod t9_assembly_window_new {
     }
 
     #[test]
-    fn contract_holds_on_samples() {
+    fn verif_t9_assembly_window_new_contract() {
         for limit in [0usize, 1, 1447, 1448, 1449, 2 * 1448, 100_000, 1_000_000, 94_896_128,
                       u32::MAX as usize, usize::MAX - 94_896_128 - 1448] {
             check(limit);
